@@ -3,7 +3,9 @@
 # Copies /repo's working tree (or $VERIF_REPO) to a scratch directory with std's synchronisation
 # primitives redirected to shuttle's (tools/thr_rewrite.py), builds /verif/harness-thr against that
 # copy, runs it, prints its JSON (one line, prefixed "THR-JSON "), and removes the scratch copy.
-# Exit 0: ran; exit 3: the redirected copy does not build (reported, the caller decides); exit 2: other failure.
+# Exit 0: ran; exit 3: the redirected copy does not build; exit 4: the exploration did not end within
+# its time limit (a primitive the scheduler does not model blocking a scheduled thread looks like
+# this) - both reported, the caller decides; exit 2: other failure.
 set -u
 PROP="$1"; TIER="${2:-quick}"; CASE="${3:-}"
 REPO="${VERIF_REPO:-/repo}"
@@ -25,8 +27,12 @@ if ! CARGO_NET_OFFLINE=true CARGO_TARGET_DIR="$TGT" cargo build --offline -q --r
   exit 3
 fi
 # a scenario that never yields (a std primitive blocking a shuttle thread) would hang: watchdog
-LIMIT=1500; [ "$TIER" = thorough ] && LIMIT=7000
+LIMIT=600; [ "$TIER" = thorough ] && LIMIT=7000
 OUT=$(SHUTTLE_SILENCE_WARNINGS=1 timeout $LIMIT "$TGT/release/vthr" "$PROP" "$TIER" $CASE 2>"$TGT/run.err"); rc=$?
+if [ $rc -eq 124 ]; then
+  echo "THR-TIMEOUT after ${LIMIT}s"
+  exit 4
+fi
 if [ $rc -ne 0 ] || [ -z "$OUT" ]; then
   echo "THR-ERROR run exit=$rc $(tail -c 300 "$TGT/run.err" | tr '\n' ' ')"
   exit 2
